@@ -13,7 +13,7 @@ Open Scope string_scope.
    fresh file with each block spliced in directly after its opening tag, TABs normalised.  Regeneration
    rewrites exactly those bytes and produces no LostCode. *)
 Theorem C01_fixed_point : forall path (u : string -> list string) fresh its,
-  parse_items fresh = Some its -> wfb its = true -> lines_okb fresh = true ->
+  parse_items fresh = Some its -> wfb its = true -> items_okb its = true ->
   (forall k, block_ok (u k) = true) ->
   regen_file path fresh (on_disk u its) = (on_disk u its, []).
 Proof. exact regen_file_fixed_point. Qed.
@@ -21,7 +21,7 @@ Print Assumptions C01_fixed_point.
 
 (* any number of successive regenerations *)
 Theorem C01_iterated : forall n path (u : string -> list string) fresh its,
-  parse_items fresh = Some its -> wfb its = true -> lines_okb fresh = true ->
+  parse_items fresh = Some its -> wfb its = true -> items_okb its = true ->
   (forall k, block_ok (u k) = true) ->
   Nat.iter n (fun d => fst (regen_file path fresh d)) (on_disk u its) = on_disk u its.
 Proof. exact regen_file_iterated. Qed.
@@ -49,7 +49,7 @@ Definition ex_u (k : string) : list string :=
   if String.eqb k (bs [123;123;123;85;83;69;82;95;88]) then [bs [9;60;60;60;88;62;62;62;10]; bs [195;169;10]] else [].
 
 Example C01_fixed_point_nonvacuous :
-  exists its, parse_items ex_fresh = Some its /\ wfb its = true /\ lines_okb ex_fresh = true
+  exists its, parse_items ex_fresh = Some its /\ wfb its = true /\ items_okb its = true
               /\ (forall k, block_ok (ex_u k) = true)
               /\ on_disk ex_u its <> concat_lines (map tab4 ex_fresh).
 Proof.
